@@ -49,18 +49,53 @@ def run_diff(case):
     return rb, d, None
 
 
+TEXT_FORMATTERS = ["juniper", "nokia", "routeros"]     # besides the case's own vendor: the formatters with marks
+
+
+def _formatters(case):
+    from annet.vendors import registry_connector
+    reg = registry_connector.get()
+    out = []
+    for name in [case["vendor"]] + [n for n in TEXT_FORMATTERS if n != case["vendor"]]:
+        out.append((name, reg[name].make_formatter()))
+    return out
+
+
 def impl(case):
     from annet.annlib import patching
+    from annet.annlib.diff import gen_pre_as_diff
     rbgen.setup()
     rb, d, err = run_diff(case)
     if err:
         return err
-    return {"diff": rbgen.dump_diff(d), "stripped": rbgen.dump_diff(patching.strip_unchanged(d))}
+    stripped = patching.strip_unchanged(d)
+    out = {"diff": rbgen.dump_diff(d), "stripped": rbgen.dump_diff(stripped)}
+    # the two text views of the stripped diff, produced by the real code; the flag says whether the harness's reader
+    # gets the entries back (the Lean side answers the same question with its own reader)
+    texts = []
+    for name, fmt in _formatters(case):
+        try:
+            lines = list(fmt.diff(stripped))
+            texts.append([name, lines, parse_signed(lines, fmt) == signed(stripped)])
+        except Exception as e:  # noqa
+            texts.append([name, ["raised %s" % type(e).__name__], False])
+    out["texts"] = texts
+    try:
+        ptxt = [l.rstrip("\n") for l in gen_pre_as_diff(patching.make_pre(stripped), False, "  ", True)]
+        out["pre_text"] = ptxt
+        out["pre_back"] = multiset(parse_pre_text(ptxt, "  ")) == multiset(signed(stripped))
+    except Exception as e:  # noqa
+        out["pre_text"] = ["raised %s" % type(e).__name__]
+        out["pre_back"] = False
+    return out
 
 
 def requests(case):
     rbgen.setup()
-    return [rbgen.job_request("rb.diff", case)]
+    rq = rbgen.job_request("rb.diff", case)
+    rq["fmts"] = [dict(name=name, indent=f._indent, block_begin=f._block_begin, block_end=f._block_end,
+                       statement_end=f._statement_end) for name, f in _formatters(case)]
+    return [rq]
 
 
 def model(case, resp):
@@ -298,6 +333,10 @@ def stats(case, r):
             walk(ch)
     walk(r["diff"])
     lab += ["op:" + o for o in sorted(ops)]
+    if r.get("texts"):
+        lab.append("text-views-read-back=%s" % ("all" if all(t[2] for t in r["texts"]) and r.get("pre_back") else "not-all"))
+        if any(ch for (_o, _r, ch, _m) in r["stripped"]):
+            lab.append("text-views-nested")
     for kw in ("%ordered", "%rewrite", "%global", "%logic", "!"):
         if kw in case["ptext"]:
             lab.append("rb:" + kw)
